@@ -454,11 +454,17 @@ func (c *checker) checkTree(es []ent, ops []mop, qs querySet, qr []qres, fsList 
 					"path": relName(!strings.HasPrefix(p, "/")), "target": c.class(p), "stat": statClass,
 				}
 
-				c.report(sig, map[string]any{
+				rp := map[string]any{
 					"fs": fsName, "tree_spec": treeSpec(es), "tree": es, "steps": opStrings(ops),
 					"query": query{Func: d.Func, Arg: c.san(arg)}, "expected": d.Want, "observed": d.Got,
-					"note": "expected = what Stat/ReadDir of the same instance imply (value,error-ness)",
-				})
+					"note": "expected = what Stat/ReadDir of the same instance, asked by the same user, imply (value,error-ness)",
+				}
+
+				if c.user != "" {
+					rp["user"] = c.user
+				}
+
+				c.report(sig, rp)
 			}
 
 			if bk != "" {
